@@ -87,6 +87,11 @@ static void dump_private(qlist_t *l) {
     free(fw);
 }
 
+/* `obsoff`: the observation after every operation is taken from the node chain instead of through getat(i):
+ * a complete sweep of getat repairs (or sets) whatever position state the library keeps between calls, and a
+ * defect that needs that state to survive from one call to the next would never show (seed C09-m10). The printed
+ * text is the same; `obson` switches back. */
+static int obs_private = 0;
 static void dump(void) {
     size_t sz = 0;
     if (kind == K_LIST) {
@@ -110,6 +115,16 @@ static void dump(void) {
         dump_private(G->list);
         return;
     } else {
+        return;
+    }
+    if (obs_private) {
+        size_t i = 0;
+        for (qlist_obj_t *o = inner()->first; o != NULL && i < sz; o = o->next, i++) {
+            if (i) printf(",");
+            puthex(stdout, o->data, o->size);
+        }
+        printf("]");
+        dump_private(inner());
         return;
     }
     for (size_t i = 0; i < sz; i++) {
@@ -521,6 +536,10 @@ int main(void) {
         char *w[MAXW]; int nw = split_words(line, w);
         if (nw == 0) continue;
         int done = 0;
+        if ((!strcmp(w[0], "obsoff") || !strcmp(w[0], "obson")) && nw == 1) {
+            obs_private = !strcmp(w[0], "obsoff");
+            printf("ok\n"); fflush(stdout); continue;
+        }
         if ((!strcmp(w[0], "fault") || !strcmp(w[0], "faultfrom")) && nw == 2) {
             aw_arm(atol(w[1]), w[0][5] == 'f');
             printf("ok\n"); fflush(stdout); continue;
